@@ -5,4 +5,208 @@ import PorepyVerif.C35.Model
 
 namespace PorepyVerif.C35
 
+/-! ### scatter into blocks -/
+
+theorem set_append_head {α} (a : List α) (x v : α) (c : List α) :
+    (a ++ x :: c).set a.length v = a ++ v :: c := by
+  induction a with
+  | nil => rfl
+  | cons y a ih => simp [ih]
+
+/-- blocks `v :: b … b` of the given sizes -/
+def headed {α} (b : α) : List α → List Nat → List α
+  | v :: vs, c :: cs => v :: List.replicate (c - 1) b ++ headed b vs cs
+  | _, _ => []
+
+theorem cumsumFromN_dropLast (s : Nat) (l : List Nat) :
+    cumsumFromN s l.dropLast = (cumsumFromN s l).dropLast := by
+  induction l generalizing s with
+  | nil => rfl
+  | cons a l ih =>
+    cases l with
+    | nil => rfl
+    | cons b l =>
+      simp only [List.dropLast, cumsumFromN] at *
+      rw [ih]
+
+theorem replicate_succ_pred {α} (b : α) (c m : Nat) (hc : 1 ≤ c) :
+    List.replicate (c + m) b = b :: (List.replicate (c - 1) b ++ List.replicate m b) := by
+  obtain ⟨k, rfl⟩ : ∃ k, c = k + 1 := ⟨c - 1, by omega⟩
+  have e : k + 1 + m = (k + m) + 1 := by omega
+  rw [e, List.replicate_succ, Nat.add_sub_cancel, List.replicate_append_replicate]
+
+theorem cumsumFromN_cons (s k : Nat) (l : List Nat) :
+    cumsumFromN s (k :: l) = (s + k) :: cumsumFromN (s + k) l := rfl
+
+theorem dropLast_cumsumFromN_cons2 (s k c : Nat) (cs : List Nat) :
+    (cumsumFromN s (k :: c :: cs)).dropLast = (s + k) :: (cumsumFromN (s + k) (c :: cs)).dropLast := rfl
+
+theorem scatter_blocks {α} (b : α) : ∀ (cs : List Nat) (vs pre blk : List α),
+    vs.length = cs.length → (∀ c ∈ cs, 1 ≤ c) →
+    scatter (pre ++ blk ++ List.replicate (sumN cs) b)
+        ((cumsumFromN pre.length (blk.length :: cs)).dropLast) vs
+      = pre ++ blk ++ headed b vs cs := by
+  intro cs
+  induction cs with
+  | nil =>
+    intro vs pre blk hl _
+    cases vs with
+    | nil => simp [cumsumFromN, scatter, headed, sumN]
+    | cons v vs => simp at hl
+  | cons c cs ih =>
+    intro vs pre blk hl hpos
+    cases vs with
+    | nil => simp at hl
+    | cons v vs =>
+      have hc : 1 ≤ c := hpos c (List.mem_cons_self)
+      have hl' : vs.length = cs.length := by simpa using hl
+      have hpos' : ∀ c ∈ cs, 1 ≤ c := fun x hx => hpos x (List.mem_cons_of_mem _ hx)
+      have h1 := ih vs (pre ++ blk) (v :: List.replicate (c - 1) b) hl' hpos'
+      simp only [List.length_append, List.length_cons, List.length_replicate] at h1
+      have e1 : c - 1 + 1 = c := by omega
+      rw [e1] at h1
+      rw [dropLast_cumsumFromN_cons2]
+      simp only [scatter, sumN, headed]
+      rw [replicate_succ_pred b c (sumN cs) hc]
+      have e2 : pre.length + blk.length = (pre ++ blk).length := by simp
+      rw [e2, set_append_head]
+      simpa [List.append_assoc] using h1
+
+/-! ### expand_index_pointers -/
+
+/-- number of elements of a kept interval -/
+def cnt (p : Int × Int) : Nat := (p.2 - 1 - p.1 + 1).toNat
+
+/-- the array `x` of the code before the final cumulative sum, interval after interval:
+    jump from the previous end, then ones -/
+def jumps (prev : Int) : List (Int × Int) → List Int
+  | [] => []
+  | p :: P => (p.1 - prev) :: List.replicate (cnt p - 1) 1 ++ jumps (p.2 - 1) P
+
+/-- the values `lo[1:] - hi[:-1]` -/
+def jumpVals (prev : Int) : List (Int × Int) → List Int
+  | [] => []
+  | p :: P => (p.1 - prev) :: jumpVals (p.2 - 1) P
+
+theorem zipWith_jumpVals (p0 : Int × Int) (P : List (Int × Int)) :
+    List.zipWith (· - ·) (P.map (·.1)) (((p0 :: P).map (fun p => p.2 - 1)).dropLast)
+      = jumpVals (p0.2 - 1) P := by
+  induction P generalizing p0 with
+  | nil => simp [jumpVals]
+  | cons p1 P ih =>
+    have := ih p1
+    simp only [List.map_cons, List.dropLast, List.zipWith_cons_cons, jumpVals] at *
+    rw [this]
+
+theorem headed_jumpVals (prev : Int) (P : List (Int × Int)) :
+    headed 1 (jumpVals prev P) (P.map cnt) = jumps prev P := by
+  induction P generalizing prev with
+  | nil => rfl
+  | cons p P ih => simp only [jumpVals, List.map_cons, headed, jumps, ih]
+
+theorem cumsumFrom_replicate_one (k : Nat) (s : Int) (rest : List Int) :
+    cumsumFrom s (List.replicate k 1 ++ rest)
+      = (List.range k).map (fun (j : Nat) => s + 1 + (j : Int)) ++ cumsumFrom (s + k) rest := by
+  induction k generalizing s with
+  | zero => simp
+  | succ k ih =>
+    rw [List.replicate_succ, List.cons_append, cumsumFrom, ih, List.range_succ_eq_map, List.map_cons,
+      List.map_map]
+    simp only [Int.natCast_zero, Int.add_zero, List.cons_append, Function.comp_def, Int.natCast_succ]
+    congr 1
+    · congr 1
+      apply List.map_congr_left
+      intro a _
+      omega
+    · congr 1
+      omega
+
+theorem rangeI_eq_nil (l h : Int) (hlh : ¬ (l + 1 ≤ h)) : rangeI l h = [] := by
+  have : (h - l).toNat = 0 := by omega
+  simp [rangeI, this]
+
+theorem rangeI_cons (l h : Int) (hlh : l + 1 ≤ h) :
+    rangeI l h = l :: (List.range ((h - l).toNat - 1)).map (fun (j : Nat) => l + 1 + (j : Int)) := by
+  obtain ⟨k, hk⟩ : ∃ k, (h - l).toNat = k + 1 := ⟨(h - l).toNat - 1, by omega⟩
+  simp only [rangeI, hk, List.range_succ_eq_map, List.map_cons, List.map_map, Nat.add_sub_cancel]
+  simp only [Int.natCast_zero, Int.add_zero, Function.comp_def, Int.natCast_succ]
+  congr 1
+  apply List.map_congr_left
+  intro a _
+  omega
+
+/-- concatenated ranges of a list of intervals -/
+def rangesOf : List (Int × Int) → List Int
+  | [] => []
+  | p :: P => rangeI p.1 p.2 ++ rangesOf P
+
+theorem cumsumFrom_jumps (prev : Int) (P : List (Int × Int)) (hP : ∀ p ∈ P, p.1 + 1 ≤ p.2) :
+    cumsumFrom prev (jumps prev P) = rangesOf P := by
+  induction P generalizing prev with
+  | nil => rfl
+  | cons p P ih =>
+    have hp : p.1 + 1 ≤ p.2 := hP p List.mem_cons_self
+    have hP' : ∀ q ∈ P, q.1 + 1 ≤ q.2 := fun q hq => hP q (List.mem_cons_of_mem _ hq)
+    simp only [jumps, rangesOf, cumsumFrom]
+    have e0 : prev + (p.1 - prev) = p.1 := by omega
+    rw [e0, cumsumFrom_replicate_one, rangeI_cons _ _ hp]
+    have e1 : cnt p - 1 = (p.2 - p.1).toNat - 1 := by simp only [cnt]; omega
+    have e2 : p.1 + ((cnt p - 1 : Nat) : Int) = p.2 - 1 := by simp only [cnt]; omega
+    rw [e2, ih _ hP', e1]
+    simp
+
+theorem expandSpec_eq_rangesOf_filter (lo hi : List Int) :
+    expandSpec lo hi = rangesOf ((lo.zip hi).filter (fun p => decide (p.1 + 1 ≤ p.2))) := by
+  induction lo generalizing hi with
+  | nil => simp [expandSpec, rangesOf]
+  | cons l lo ih =>
+    cases hi with
+    | nil => simp [expandSpec, rangesOf]
+    | cons h hi =>
+      simp only [expandSpec, List.zip_cons_cons, List.filter_cons]
+      by_cases hlh : l + 1 ≤ h
+      · simp only [hlh, decide_true, if_true, rangesOf, ih]
+      · simp only [hlh, decide_false, rangeI_eq_nil l h hlh, List.nil_append, ih]
+        simp
+
+theorem sumN_cons (a : Nat) (l : List Nat) : sumN (a :: l) = a + sumN l := rfl
+
+theorem expandKept_eq (P : List (Int × Int)) (hP : ∀ p ∈ P, p.1 + 1 ≤ p.2) :
+    expandKept P = rangesOf P := by
+  cases P with
+  | nil => rfl
+  | cons p0 P =>
+    have hp : p0.1 + 1 ≤ p0.2 := hP p0 List.mem_cons_self
+    have hc0 : 1 ≤ cnt p0 := by simp only [cnt]; omega
+    have hpos : ∀ c ∈ P.map cnt, 1 ≤ c := by
+      intro c hc
+      obtain ⟨q, hq, rfl⟩ := List.mem_map.mp hc
+      have := hP q (List.mem_cons_of_mem _ hq)
+      simp only [cnt]; omega
+    simp only [expandKept]
+    show cumsum (scatter ((List.replicate (sumN (cnt p0 :: P.map cnt)) (1 : Int)).set 0 p0.1)
+        (cumsumN (cnt p0 :: P.map cnt).dropLast)
+        (List.zipWith (· - ·) (P.map (·.1)) (((p0 :: P).map (fun p => p.2 - 1)).dropLast))) = _
+    rw [zipWith_jumpVals, sumN_cons, replicate_succ_pred 1 _ _ hc0, List.set_cons_zero, cumsumN,
+      cumsumFromN_dropLast]
+    have h := scatter_blocks (1 : Int) (P.map cnt) (jumpVals (p0.2 - 1) P) []
+      (p0.1 :: List.replicate (cnt p0 - 1) 1) (by
+        clear hpos hP
+        induction P generalizing p0 with
+        | nil => rfl
+        | cons q P ih => simp [jumpVals, ih q]) hpos
+    simp only [List.nil_append, List.length_nil, List.length_cons, List.length_replicate] at h
+    have e : cnt p0 - 1 + 1 = cnt p0 := by omega
+    rw [e] at h
+    rw [List.cons_append] at h
+    rw [h, headed_jumpVals]
+    have := cumsumFrom_jumps 0 (p0 :: P) hP
+    simp only [jumps, Int.sub_zero] at this
+    exact this
+
+theorem expandCore_eq_spec (lo hi : List Int) : expandCore lo hi = expandSpec lo hi := by
+  rw [expandSpec_eq_rangesOf_filter, expandCore, expandKept_eq]
+  intro p hp
+  simpa using (List.mem_filter.mp hp).2
+
 end PorepyVerif.C35
